@@ -45,7 +45,7 @@ def nshards(tier):
 def twin_of(mid):
     t = MidiFile(type=mid.type, ticks_per_beat=mid.ticks_per_beat, charset=mid.charset)
     for tr in mid.tracks:
-        t.tracks.append(MidiTrack(m.copy() for m in tr))
+        t.tracks.append(type(tr)(m.copy() for m in tr))      # (a user's track class stays what it is)
     return t
 
 
@@ -223,8 +223,18 @@ def rand_msg(rng):
     return Message('sysex', data=(rng.randrange(128),), time=d)
 
 
+class UserTrack(MidiTrack):
+    """A user's MidiTrack subclass (adds a method, no state)."""
+
+    def transpose(self, k):
+        for m in self:
+            if m.type == 'note_on':
+                m.note = (m.note + k) % 128
+
+
 def rand_track(rng, n=None):
-    return MidiTrack(rand_msg(rng) for _ in range(rng.randrange(0, 8) if n is None else n))
+    cls = UserTrack if rng.random() < 0.15 else MidiTrack
+    return cls(rand_msg(rng) for _ in range(rng.randrange(0, 8) if n is None else n))
 
 
 def do_edit(rng, mid):
@@ -446,6 +456,7 @@ def _history(ctx, seed, maxsteps, rng, mid, log, own_path):
     edited_after_obs = False
     nontrivial = False
     steps = rng.randrange(3, maxsteps + 1)
+    suspended = []
     case = lambda: {'kind': 'history', 'seed': seed, 'maxsteps': maxsteps}  # noqa: E731
     for i in range(steps):
         r = rng.random()
@@ -479,8 +490,23 @@ def _history(ctx, seed, maxsteps, rng, mid, log, own_path):
             if observed:
                 edited_after_obs = True
         elif r < 0.55:
-            what = rng.choice(('partial-iter', 'partial-play'))
-            abandon(mid, what, rng.randrange(1, 4))
+            what = rng.choice(('partial-iter', 'partial-play', 'partial-play-kept-suspended'))
+            if what == 'partial-play-kept-suspended':
+                # a player parked between two messages (the consumer is busy elsewhere); it stays alive
+                clock = FakeTime()
+                orig_t = mf.time
+                mf.time = clock
+                try:
+                    g = mid.play(meta_messages=True, now=clock.time)
+                    try:
+                        next(g)
+                    except (StopIteration, TypeError, ValueError):
+                        pass
+                    suspended.append(g)
+                finally:
+                    mf.time = orig_t
+            else:
+                abandon(mid, what, rng.randrange(1, 4))
             log.append('obs:' + what)
             observed = True
         else:
